@@ -82,7 +82,7 @@ _ENUM_PROPS = {
 }
 _TYPE_PROPS = {
   "BackgroundColor": S.ColorType, "Color": S.ColorType, "Disparity": S.LengthType, "FontSize": S.LengthType,
-  "Padding": S.PaddingType, "TextDecoration": S.TextDecorationType,
+  "TextDecoration": S.TextDecorationType,
 }
 _NUM_PROPS = ("LuminanceGain", "Opacity", "Shear")
 _ROOT_UNITS = (U.pct, U.px, U.c, U.rh, U.rw)     # doc/data_model.md "Lengths": extent, origin, position
@@ -106,7 +106,10 @@ def my_valid(prop, value):
   if name == "FillLineGap":
     return isinstance(value, bool)
   if name == "FontFamily":
-    return isinstance(value, tuple) and all(isinstance(i, (str, S.GenericFontFamilyType)) for i in value)
+    # a non-empty list of non-empty family names / generic families (an empty list or name has no tts:fontFamily syntax)
+    return isinstance(value, tuple) and len(value) > 0 and all(isinstance(i, (str, S.GenericFontFamilyType)) and i != "" for i in value)
+  if name == "Padding":
+    return isinstance(value, S.PaddingType) and all(isinstance(getattr(value, f), S.LengthType) for f in ("before", "end", "after", "start"))
   if name == "LineHeight":
     return value is S.SpecialValues.normal or isinstance(value, S.LengthType)
   if name == "LinePadding":
@@ -182,7 +185,9 @@ _VAL_LIST = [
   ("junkstr", "junk", "str"),
   ("ff_ok", ("Arial", S.GenericFontFamilyType.serif), "tuple-ok"),
   ("ff_one", ("a",), "tuple-ok"),
-  ("ff_empty", (), "tuple-ok"),
+  ("ff_empty", (), "tuple-empty"),
+  ("ff_empty_name", ("a", ""), "tuple-bad-item"),
+  ("padding_bad_member", S.PaddingType(before=3), "padding-bad-member"),
   ("ff_bad_int", (1,), "tuple-bad-item"),
   ("ff_bad_mixed", ("a", None), "tuple-bad-item"),
   ("ff_bad_nested", (("a",),), "tuple-bad-item"),
@@ -198,7 +203,7 @@ PROP_NAMES = sorted(p.__name__ for p in SP.ALL)
 
 # value classes that are near misses of a property keep their name in discriminators; everything else is "wrong-type"
 _NEAR = {
-  "FontFamily": {"tuple-bad-item", "list", "bare-generic", "str"},
+  "FontFamily": {"tuple-bad-item", "tuple-empty", "list", "bare-generic", "str"}, "Padding": {"padding-bad-member"},
   "Extent": {"extent-em"}, "Origin": {"coord-em"}, "Position": {"position-em"},
   "LineHeight": {"special"}, "RubyReserve": {"special"}, "TextEmphasis": {"special"}, "TextOutline": {"special"},
   "TextShadow": {"special"}, "FillLineGap": {"int"},
@@ -558,10 +563,13 @@ def snapshot(w: World, priv=None) -> Snap:
       ln, item0 = "skipped", "skipped"
     else:
       ln = len(e)
-      try:
-        item0 = n(e[0])
-      except IndexError:
-        item0 = "IndexError"
+      item0 = []                                   # e[i] for every index from -(n+1) to n (both ends out of range)
+      for i in range(-len(kids) - 1, len(kids) + 1):
+        try:
+          item0.append(n(e[i]))
+        except IndexError:
+          item0.append("IndexError")
+      item0 = tuple(item0)
     sty = []
     for p in e.iter_styles():
       sty.append((propname(p), valname(e.get_style(p)), e.has_style(p)))
@@ -660,8 +668,9 @@ def invariant(w: World, s: Snap):
       add("C15.links", f"{name}.first", "first_child", [pb["first"], ch])
     if pb["last"] != (ch[-1] if ch else None):
       add("C15.links", f"{name}.last", "last_child", [pb["last"], ch])
-    if pb["item0"] != (ch[0] if ch else "IndexError"):
-      add("C15.links", f"{name}.item0", "getitem", [pb["item0"], ch])
+    want_items = tuple(ch[i] if -len(ch) <= i < len(ch) else "IndexError" for i in range(-len(ch) - 1, len(ch) + 1))
+    if tuple(pb["item0"]) != want_items:
+      add("C15.links", f"{name}.item", "getitem", [pb["item0"], ch])
     for i, c in enumerate(ch):
       listers.setdefault(c, []).append(name)
       cp = pub.get(c)
@@ -791,6 +800,13 @@ def invariant(w: World, s: Snap):
     pb = pub[d]
     if pb["body"] != pv["_body"]:
       add("C15.links", f"{d}.body", "getter-vs-field:body", [pb["body"], pv["_body"]])
+    # the body of a document is a root element that belongs to that document
+    bd = pb["body"]
+    if bd is not None and bd in pub and bd not in w.docs:
+      if pub[bd]["doc"] != d:
+        add("C15.same-doc", f"{d}.body", "body-belongs-to-another-document-or-none", [bd, pub[bd]["doc"], d])
+      if pub[bd]["parent"] is not None:
+        add("C15.links", f"{d}.body", "body-with-parent", [bd, pub[bd]["parent"]])
     regs = pv["_regions"]
     if not isinstance(regs, tuple) or tuple(v for _k, v in regs) != pb["regions"]:
       add("C15.links", f"{d}.regions", "getter-vs-field:regions", [pb["regions"], regs])
